@@ -10,15 +10,16 @@ import lib
 from lib import clist
 
 REQ = ("From Coq Require Import ZArith QArith String List.\nImport ListNotations.\n"
-       "From PV Require Import Ted.TedSpec Ted.Cost Ted.ZS Ted.TedMemo Ted.TedBrute Ted.TedRun.\nOpen Scope string_scope.")
+       "From PV Require Import Ted.TedSpec Ted.Cost Ted.CostW Ted.ZS Ted.TedMemo Ted.TedBrute Ted.TedRun Ted.TedRunW.\nOpen Scope string_scope.")
 
 # label alphabet; a tree label is an index into this table (the Coq model sees the same table)
 LABELS = ["Name(x)", "Name(y)", "If", "For", "AsyncFor", "FunctionDef(f)", "FunctionDef(g)", "ClassDef(A)", "Decorator",
           "AnnAssign", "BinOp(+)", "UnaryOp(-)", "Constant(1)", "Constant(2)", "Call", "Pass", "x = Field(3)",
-          "Generic_Type[T]", "IfExp", "Return"]
+          "Generic_Type[T]", "IfExp", "Return",
+          # top-level definitions whose name cannot be extracted (no "(" / no ")" after it: apted_cost.go:328)
+          "ClassDef", "FunctionDef(h"]
 # (name, ignore_literals, ignore_identifiers) -> Coq cmodel / string-level cost model
 CONFIGS = [("default", False, False), ("python", False, False), ("weighted", False, False), ("python", True, True)]
-SCALE = {"default": 1, "python": 2 ** 120, "weighted": 2 ** 120}
 TOL = Fraction(1, 10 ** 9)
 EXACT_LIMIT = 500
 
@@ -27,23 +28,98 @@ def cb(b):
     return "true" if b else "false"
 
 
+# A member of the weighted FAMILY NewWeightedCostModel(wi, wd, wr, base) is a config ("w", il, ii, base, wi, wd, wr) with
+# base in {"default", "python"} and exact (dyadic) Fractions as weights; il/ii only matter for the python base.
+def is_w(cfg):
+    return cfg[0] == "w"
+
+
+def cfg_scale(cfg):
+    return 1 if cfg[0] == "default" else 2 ** 120
+
+
+def small_dyadic(w):
+    return w.denominator <= 1024 and w.denominator & (w.denominator - 1) == 0 and w.numerator <= 2 ** 20
+
+
+def cfg_exact(cfg):
+    """float64 arithmetic on these costs is exact for the tree sizes generated: compare with ==, not within 1e-9"""
+    return cfg[0] == "default" or (is_w(cfg) and cfg[3] == "default" and all(small_dyadic(w) for w in cfg[4:7]))
+
+
+def cfg_name(cfg):
+    if is_w(cfg):
+        return "weighted(ins=%s, del=%s, ren=%s) over %s" % (cfg[4], cfg[5], cfg[6], cfg[3])
+    return cfg[0]
+
+
+def cfg_req(cfg):
+    """request fields selecting the cost model in the hook (ops ted/ted_costs resp. ted_w/ted_costs_w)"""
+    if is_w(cfg):
+        return {"wi": float(cfg[4]), "wd": float(cfg[5]), "wr": float(cfg[6]), "base": cfg[3],
+                "ignore_literals": cfg[1], "ignore_identifiers": cfg[2]}
+    return {"cost": cfg[0], "ignore_literals": cfg[1], "ignore_identifiers": cfg[2]}
+
+
+def coq_q(w):
+    return "(%d#%d)" % (w.numerator, w.denominator)
+
+
+def coq_wbase(cfg):
+    return "WDefault" if cfg[3] == "default" else "(WPython %s %s)" % (cb(cfg[1]), cb(cfg[2]))
+
+
 def coq_cm(cfg):
-    name, il, ii = cfg
+    name, il, ii = cfg[:3]
     if name == "default":
         return "cm_default"
+    if name == "w":
+        return "(cm_weighted_w %s %s %s %s tbl)" % (coq_q(cfg[4]), coq_q(cfg[5]), coq_q(cfg[6]), coq_wbase(cfg))
     return "(cm_%s %s %s tbl)" % (name, cb(il), cb(ii))
 
 
-def coq_scost(cfg):
-    name, il, ii = cfg
+def coq_costs(cfg):
+    """Coq term: cost tables of the string-level cost model on [tbl]"""
+    name, il, ii = cfg[:3]
+    if name == "w":
+        return "run_costs_w %s %s %s %s tbl" % (coq_q(cfg[4]), coq_q(cfg[5]), coq_q(cfg[6]), coq_wbase(cfg))
     if name == "default":
-        return "default_scost"
+        return "run_costs default_scost tbl"
     base = "(python_scost (py_default_cfg %s %s))" % (cb(il), cb(ii))
-    return base if name == "python" else "(weighted_scost %s)" % base
+    return "run_costs %s tbl" % (base if name == "python" else "(weighted_scost %s)" % base)
 
 
-PRELUDE = ("Definition tbl : list string := %s.\n" % clist('"%s"' % l for l in LABELS) +
-           "".join("Definition cm%d := Eval vm_compute in %s.\n" % (i, coq_cm(c)) for i, c in enumerate(CONFIGS)))
+TBL = "Definition tbl : list string := %s.\n" % clist('"%s"' % l for l in LABELS)
+
+
+def cm_defs(cfgs, idxs):
+    return "".join("Definition cm%d := Eval vm_compute in %s.\n" % (i, coq_cm(cfgs[i])) for i in idxs)
+
+
+PRELUDE = TBL + cm_defs(CONFIGS, range(len(CONFIGS)))
+
+# weight triples (insert, delete, rename) that are always exercised, with the base model
+F = Fraction
+W_FIXED = [
+    (F(2), F(3, 2), F(1, 2), "default"),        # insert dearer than delete
+    (F(2), F(3, 2), F(1, 2), "python"),
+    (F(1, 2), F(3), F(1), "python"),            # delete dearer than insert
+    (F(1, 2), F(3), F(1), "default"),
+    (F(0), F(1), F(1), "default"),              # zero-weight corners: NewWeightedCostModel accepts any float
+    (F(1), F(0), F(1), "python"),
+    (F(1), F(1), F(0), "default"),
+    (F(1, 1024), F(1024), F(1), "python"),      # tiny / huge
+    (F(1024), F(1, 1024), F(1, 4), "default"),
+    (F(5), F(5), F(1, 8), "python"),            # insert = delete: symmetric member
+    (F(1), F(1), F(0.8), "python"),             # the member NewCloneDetector builds
+    (F(1), F(1), F(1), "default"),              # identity weights
+    (F(1), F(2), F(4), "default"),              # rename never pays
+]
+
+
+def rand_weight(rng):
+    k = rng.choice([0, 1, 1, 2, 3, 5, 7, rng.randint(0, 40)])
+    return F(k, 2 ** rng.randint(0, 4))
 
 
 # ------------------------------------------------------------------------------------------------
@@ -247,27 +323,44 @@ def main(tier):
     if not ck.go_ok:
         ck.finish()
 
+    # ---------------- the members of the weighted family exercised in this run -----------------------
+    wcfgs = [("w", False, False, base, wi, wd, wr) for (wi, wd, wr, base) in W_FIXED]
+    for k in range(40 if thorough else 5):
+        wi, wd, wr = rand_weight(rng), rand_weight(rng), rand_weight(rng)
+        if k % 2 == 0 and wi == wd:
+            wd = wi + F(1, 4)          # make sure asymmetric members dominate
+        base = rng.choice(["default", "python", "python"])
+        wcfgs.append(("w", base == "python" and rng.random() < 0.3, base == "python" and rng.random() < 0.3, base, wi, wd, wr))
+    ALLCFG = list(CONFIGS) + wcfgs
+    W0 = len(CONFIGS)
+
     # ---------------- part 0: the cost tables of the implementation vs the cost model --------------
-    cres = lib.driver([{"op": "ted_costs", "labels": LABELS, "cost": c[0], "ignore_literals": c[1], "ignore_identifiers": c[2]}
-                       for c in CONFIGS])
-    for c, r in zip(CONFIGS, cres):
+    t_p0 = time.time()
+    cres = lib.driver([dict(cfg_req(c), op="ted_costs_w" if is_w(c) else "ted_costs", labels=LABELS) for c in ALLCFG])
+    for c, r in zip(ALLCFG, cres):
         if "error" in r:
             ck.broken_ties.append("ted_costs hook failed for %s: %s" % (c, r["error"]))
     cost_mism = 0
     if ted_ok and not ck.broken_ties:
         try:
-            out = lib.coq_eval("C07_costs", REQ, PRELUDE + "".join(
-                "Eval vm_compute in run_costs %s tbl.\n" % coq_scost(c) for c in CONFIGS))
-            vals = lib.parse_coq_values(out)
-            for c, r, v in zip(CONFIGS, cres, vals):
+            chunks = [list(range(k, len(ALLCFG), 6)) for k in range(6)]
+            outs = lib.coq_eval_many([("C07_costs_%d" % k, REQ, TBL + "".join(
+                "Eval vm_compute in %s.\n" % coq_costs(ALLCFG[i]) for i in ch)) for k, ch in enumerate(chunks)], workers=6)
+            vals = [None] * len(ALLCFG)
+            for ch, out in zip(chunks, outs):
+                for i, v in zip(ch, lib.parse_coq_values(out)):
+                    vals[i] = v
+            for c, r, v in zip(ALLCFG, cres, vals):
                 (mdel, mins, mren), exact = v[:3], v[3]
-                q = lambda p: Fraction(unlimb(p[0]), unlimb(p[1]))
+                q = lambda p: Fraction(unlimb(p[0]) or 0, unlimb(p[1]))
                 if not exact:
                     ck.broken_ties.append("cost model %s: a cost is not a multiple of 2^-120" % (c,))
+                # relative tolerance: the huge-weight members have costs around 1e3
+                tol = lambda x: Fraction(1, 10 ** 12) * max(1, abs(x))
                 for i in range(len(LABELS)):
-                    bad = abs(fr(r["del"][i]) - q(mdel[i])) > Fraction(1, 10 ** 12) or abs(fr(r["ins"][i]) - q(mins[i])) > Fraction(1, 10 ** 12)
+                    bad = abs(fr(r["del"][i]) - q(mdel[i])) > tol(q(mdel[i])) or abs(fr(r["ins"][i]) - q(mins[i])) > tol(q(mins[i]))
                     for j in range(len(LABELS)):
-                        bad = bad or abs(fr(r["ren"][i][j]) - q(mren[i][j])) > Fraction(1, 10 ** 12)
+                        bad = bad or abs(fr(r["ren"][i][j]) - q(mren[i][j])) > tol(q(mren[i][j]))
                     if bad:
                         cost_mism += 1
                         if cost_mism <= 3:
@@ -275,9 +368,10 @@ def main(tier):
                                 c, LABELS[i], r["del"][i], r["ins"][i], r["ren"][i]))
         except Exception as e:
             ck.broken_ties.append("cost model evaluation failed: %s" % str(e)[-600:])
+    lib.log("C07: cost tables of %d cost models in %.1fs" % (len(ALLCFG), time.time() - t_p0))
     # preconditions of the clauses, on the implementation's own tables
     sym_ok = {}
-    for ci, (c, r) in enumerate(zip(CONFIGS, cres)):
+    for ci, (c, r) in enumerate(zip(ALLCFG, cres)):
         if "error" in r:
             sym_ok[ci] = False
             continue
@@ -383,9 +477,61 @@ def main(tier):
             b, bound = mutate(rng, a, 3, labs, costs)
         add("limit", ci, a, b, bound=bound, coq=False)
 
+    # W. the weighted family with arbitrary (mostly asymmetric) weights: the two directions d(a,b), d(b,a) differ, so every
+    #    pair is taken with the larger tree first, the smaller tree first and with equal sizes, in both argument orders.
+    #    One case decides BOTH directions (d, sim, d_ba, sim_ba on one analyzer, d(b,a) again on a fresh analyzer and fresh
+    #    objects, each against its own spec value), so the exhaustive part enumerates unordered pairs.
+    sized = {}
+
+    def trees_of(labs, n):
+        key = (tuple(labs), n)
+        if key not in sized:
+            sized[key] = trees_exact(n, list(labs))
+        return sized[key]
+
+    n_wpairs = 0
+    for wi_, cfg in enumerate(wcfgs):
+        ci = W0 + wi_
+        if "error" in cres[ci]:
+            continue
+        # exhaustive: all ordered pairs of trees with <= 3 nodes over 2 labels (the first members in quick, all in thorough)
+        if wi_ < 2 or thorough:
+            labs = list(pairs2[wi_ % len(pairs2)])
+            T = trees_upto(3, labs)
+            for k, a in enumerate(T):
+                for k2, b in enumerate(T):
+                    if k2 >= k or thorough:
+                        add("w-exhaustive<=3", ci, b, a, brute=((k * len(T) + k2) % (4 if thorough else 8) == 0))
+        # size classes: (larger, smaller) in both orders, and equal sizes
+        for k in range(60 if thorough else 22):
+            labs = rng.choice(pairs2)
+            hi = rng.choice([2, 3, 3, 4, 4, 4, 5])
+            lo = rng.randint(1, hi - 1)
+            a, b = rng.choice(trees_of(labs, hi)), rng.choice(trees_of(labs, lo))
+            brute = hi <= 4 and rng.random() < 0.15
+            if k % 2 == 0 or thorough:
+                add("w-larger-first", ci, a, b, brute=brute)
+            if k % 2 == 1 or thorough:
+                add("w-smaller-first", ci, b, a, brute=brute)
+            n_wpairs += 1
+            if k % 3 == 0:
+                add("w-equal-size", ci, a, rng.choice(trees_of(labs, hi)))
+        # random larger trees and k-edit mutations with a known cost bound (the bound holds in the direction of the edits only)
+        for k in range(12 if thorough else 4):
+            labs = rng.sample(range(len(LABELS)), rng.choice([2, 3, 5]))
+            n = rng.choice([3, 6, 9, 14, 20])
+            a = rand_tree(rng, n, labs)
+            if k % 2 == 0:
+                b, bound = mutate(rng, a, rng.randint(1, 5), labs + [rng.randrange(len(LABELS))], cres[ci])
+            else:
+                b, bound = rand_tree(rng, rng.randint(1, n + 4), labs), None
+            add("w-random", ci, a, b, bound=bound)
+            if thorough:
+                add("w-random", ci, b, a)
+
     # ---------------- implementation ------------------------------------------------------------------
-    reqs = [{"op": "ted", "cost": CONFIGS[c["ci"]][0], "ignore_literals": CONFIGS[c["ci"]][1],
-             "ignore_identifiers": CONFIGS[c["ci"]][2], "lite": c["lite"], "t1": json_tree(c["a"]), "t2": json_tree(c["b"])} for c in cases]
+    reqs = [dict(cfg_req(ALLCFG[c["ci"]]), op="ted_w" if is_w(ALLCFG[c["ci"]]) else "ted", lite=c["lite"],
+                 t1=json_tree(c["a"]), t2=json_tree(c["b"])) for c in cases]
     t_impl = time.time()
     impl = lib.driver(reqs, timeout=1200 if thorough else 400)
     lib.log("C07: %d cases on the implementation in %.1fs" % (len(reqs), time.time() - t_impl))
@@ -401,7 +547,29 @@ def main(tier):
                 big.append({"op": "ted", "cost": cname, "lite": not (thorough or (kind == "path" and n1 == 501)),
                             "shape": {"Kind1": kind, "N1": n1, "Labels1": ["If", "Name(x)", "Call"],
                                       "Kind2": rng.choice(["path", "star", "comb"]), "N2": n2, "Labels2": ["For", "Name(x)", "Pass", "Return"]}})
+    # cheap costs: the optimized path gets past its early cut-off (cost > half the larger size) only with cheap nodes
+    cheap1, cheap2 = ["Decorator", "AnnAssign", "x = Field(3)"], ["Call", "BinOp(+)", "UnaryOp(-)"]
+    for kind, n1, n2 in (("star", 1000, 600),) + ((("comb", 640, 600), ("binary", 900, 560), ("path", 501, 480)) if thorough else ()):
+        big.append({"op": "ted", "cost": "python", "lite": True,
+                    "shape": {"Kind1": kind, "N1": n1, "Labels1": cheap1, "Kind2": rng.choice(["star", "comb"]), "N2": n2, "Labels2": cheap2}})
+    wbig = [c for c in wcfgs if c[4] != c[5]]
+    for kind, n1, n2 in (("path", 501, 300), ("star", 700, 640), ("comb", 520, 760)) + ((("binary", 800, 700), ("star", 2100, 2050)) if thorough else ()):
+        kinds2 = ["path", "star", "comb"] if thorough or kind != "comb" else ["path", "star"]
+        c = rng.choice(wbig)
+        big.append(dict(cfg_req(c), op="ted_w", lite=True,
+                        shape={"Kind1": kind, "N1": n1, "Labels1": ["If", "Name(x)", "Decorator"],
+                               "Kind2": rng.choice(kinds2), "N2": n2, "Labels2": ["For", "Name(x)", "Pass", "AnnAssign"]}))
+        # tiny weights: no early cut-off at all, the whole optimized computation runs
+        big.append(dict(cfg_req(("w", False, False, rng.choice(["default", "python"]), F(1, 64), F(1, 16), F(1, 32))), op="ted_w", lite=True,
+                        shape={"Kind1": kind, "N1": n1, "Labels1": ["If", "Name(x)", "Call"],
+                               "Kind2": rng.choice(kinds2), "N2": n2, "Labels2": ["For", "Name(x)", "Pass", "Return"]}))
+    # moderate weights on two paths without a common label (one key root each, nothing truncated): delete-all and insert-all are
+    # each below half the larger size, together above it, so the cut-off strikes inside the main loop (apted.go:253)
+    big.append(dict(cfg_req(("w", False, False, "default", F(3, 4), F(7, 16), F(1))), op="ted_w", lite=True,
+                    shape={"Kind1": "path", "N1": 501, "Labels1": ["If", "Name(x)", "Call"], "Kind2": "path", "N2": 300, "Labels2": ["For", "Pass", "Return"]}))
+    t_big = time.time()
     bimpl = lib.driver(big, timeout=600)
+    lib.log("C07: %d pairs above the exact limit in %.1fs" % (len(big), time.time() - t_big))
     nbig = 0
     for rq, r in zip(big, bimpl):
         nbig += 1
@@ -420,7 +588,8 @@ def main(tier):
     # ---------------- model and spec in Coq -----------------------------------------------------------
     model = [None] * len(cases)
     if ted_ok:
-        idx = [i for i, c in enumerate(cases) if c["coq"]]
+        idx = [i for i, c in enumerate(cases) if c["coq"] and c["ci"] < W0]
+        widx = [i for i, c in enumerate(cases) if c["coq"] and c["ci"] >= W0]
         # balance shards by estimated work
         def work(c):
             # the memoised spec uses the leftmost decomposition only: left-deep shapes cost up to O(n^4)
@@ -438,6 +607,25 @@ def main(tier):
             items = ["%s cm%d %s %s" % ("run_ted_brute" if cases[i]["brute"] else "run_ted", cases[i]["ci"],
                                        coq_tree(cases[i]["a"]), coq_tree(cases[i]["b"])) for i in sh]
             jobs.append(("C07_cases_%d" % k, REQ, PRELUDE + "Eval vm_compute in %s.\n" % clist(items)))
+        # the weighted family: whole members per shard (each shard tabulates only the members it evaluates)
+        nwsh = 8 if not thorough else 28
+        wshards = [[] for _ in range(nwsh)]
+        wload = [0.0] * nwsh
+        bycfg = {}
+        for i in widx:
+            bycfg.setdefault(cases[i]["ci"], []).append(i)
+        for ci_, grp in sorted(bycfg.items(), key=lambda kv: -sum(work(cases[i]) for i in kv[1])):
+            for part in ([grp[:len(grp) // 2], grp[len(grp) // 2:]] if len(grp) > 300 else [grp]):
+                k = wload.index(min(wload))
+                wshards[k].extend(part)
+                wload[k] += 2 * sum(work(cases[i]) for i in part) + 150
+        for k, sh in enumerate(wshards):
+            items = ["%s cm%d %s %s" % ("run_ted_w_brute" if cases[i]["brute"] else "run_ted_w", cases[i]["ci"],
+                                       coq_tree(cases[i]["a"]), coq_tree(cases[i]["b"])) for i in sh]
+            jobs.append(("C07_wcases_%d" % k, REQ, TBL + cm_defs(ALLCFG, sorted(set(cases[i]["ci"] for i in sh))) +
+                         "Eval vm_compute in %s.\n" % clist(items)))
+        shards = shards + wshards
+        idx = idx + widx
         try:
             t_coq = time.time()
             outs = lib.coq_eval_many(jobs, workers=14)
@@ -457,11 +645,14 @@ def main(tier):
     n_brute = 0
     for i, (c, r) in enumerate(zip(cases, impl)):
         kinds[c["kind"]] = kinds.get(c["kind"], 0) + 1
-        cfg = CONFIGS[c["ci"]]
-        exact = cfg[0] == "default"
-        scale = SCALE[cfg[0]]
-        rep = {"kind": c["kind"], "cost_model": cfg[0], "ignore_literals": cfg[1], "ignore_identifiers": cfg[2],
+        cfg = ALLCFG[c["ci"]]
+        exact = cfg_exact(cfg)
+        scale = cfg_scale(cfg)
+        wcase = is_w(cfg)
+        rep = {"kind": c["kind"], "cost_model": cfg_name(cfg), "ignore_literals": cfg[1], "ignore_identifiers": cfg[2],
                "t1": json_tree(c["a"]), "t2": json_tree(c["b"]), "impl": r}
+        if wcase:
+            rep["hook_request"] = dict(cfg_req(cfg), op="ted_w")
         if "error" in r:
             ck.violation("ComputeDistance crashed: %s" % r["error"], rep)
             continue
@@ -469,7 +660,7 @@ def main(tier):
         if any(isinstance(r[k], float) and (math.isnan(r[k]) or math.isinf(r[k])) for k in r):
             ck.violation("non-finite distance or similarity", rep)
             continue
-        dists.add((cfg[0], d))
+        dists.add((cfg_name(cfg), d))
         if d > 0:
             nontrivial += 1
         # --- the clauses of the property, on the implementation alone
@@ -499,10 +690,18 @@ def main(tier):
             bad = "nil cases: d(nil,nil)=%s sim(nil,nil)=%s sim(a,nil)=%s" % (r["d_nil_nil"], r["sim_nil_nil"], r["sim_a_nil"])
         elif c["bound"] is not None and fr(d) > fr(c["bound"]) + TOL:
             bad = "distance %s exceeds the cost %s of the edit operations that produced the second tree (so it is not the minimum)" % (d, c["bound"])
-        elif d == 0 and not (cfg[1] or cfg[2]) and canon(c["a"]) != canon(c["b"]):
+        elif d == 0 and not (cfg[1] or cfg[2]) and not (wcase and min(cfg[4:7]) == 0) and canon(c["a"]) != canon(c["b"]):
             bad = "different trees at distance 0 although every edit operation has a positive cost"
-        elif exact and d < abs(size(c["a"]) - size(c["b"])):
+        elif cfg[0] == "default" and d < abs(size(c["a"]) - size(c["b"])):
             bad = "distance %s below the size difference under unit costs" % d
+        elif wcase and cfg[3] == "default" and fr(d) < (cfg[5] * (size(c["a"]) - size(c["b"])) if size(c["a"]) > size(c["b"])
+                                                       else cfg[4] * (size(c["b"]) - size(c["a"]))):
+            # every mapping deletes at least |a|-|b| nodes (resp. inserts at least |b|-|a|), each at the delete (insert) weight
+            bad = "distance %s below (delete weight x surplus nodes of the first tree) resp. (insert weight x surplus nodes of the second)" % d
+        elif wcase and fr(r["d_ba"]) > fr(r["del_all_b"]) + fr(r["ins_all_a"]) + TOL:
+            bad = "distance d(b,a)=%s exceeds delete-all + insert-all = %s + %s" % (r["d_ba"], r["del_all_b"], r["ins_all_a"])
+        elif wcase and "d_ba_fresh" in r and r["d_ba_fresh"] != r["d_ba"]:
+            bad = "d(b,a) depends on earlier computations / object identity: %s vs %s on a fresh analyzer" % (r["d_ba"], r["d_ba_fresh"])
         if bad:
             nviol["clause"] += 1
             if nviol["clause"] <= 3:
@@ -524,7 +723,7 @@ def main(tier):
             nviol["spec"] += 1
             if nviol["spec"] <= 3:
                 ck.violation("distance %s is not the minimum edit cost %s (= %.12g) [%s cost model, %d and %d nodes]" % (
-                    d, spec_d, float(spec_d), cfg[0], size(c["a"]), size(c["b"])), rep)
+                    d, spec_d, float(spec_d), cfg_name(cfg), size(c["a"]), size(c["b"])), rep)
             continue
         if abs(fr(r["sim"]) - spec_sim) > TOL:
             nviol["spec"] += 1
@@ -536,17 +735,43 @@ def main(tier):
             if nviol["spec"] <= 3:
                 ck.violation("distance to the nil tree %s/%s is not delete-all/insert-all %s/%s" % (r["del_all_a"], r["ins_all_b"], del_a, ins_b), rep)
             continue
+        if wcase:
+            # the opposite direction d(b,a): another number when insert weight <> delete weight
+            spec_ba, del_b, ins_a = (Fraction(mv[k], scale) for k in (7, 9, 10))
+            model_ba = Fraction(mv[8], scale) if mv[8] is not None else None
+            rep["spec_distance_b_to_a"] = str(spec_ba)
+            if not close(r["d_ba"], spec_ba, exact):
+                nviol["spec"] += 1
+                if nviol["spec"] <= 3:
+                    ck.violation("distance d(b,a)=%s is not the minimum edit cost %s (= %.12g) [%s cost model, %d and %d nodes]" % (
+                        r["d_ba"], spec_ba, float(spec_ba), cfg_name(cfg), size(c["b"]), size(c["a"])), rep)
+                continue
+            if abs(fr(r["sim_ba"]) - sim_formula(spec_ba, size(c["a"]), size(c["b"]))) > TOL:
+                nviol["spec"] += 1
+                if nviol["spec"] <= 3:
+                    ck.violation("similarity(b,a) %s differs from 1 - min(d,max)/max = %s" % (r["sim_ba"], sim_formula(spec_ba, size(c["a"]), size(c["b"]))), rep)
+                continue
+            if not close(r["del_all_b"], del_b, exact) or not close(r["ins_all_a"], ins_a, exact):
+                nviol["spec"] += 1
+                if nviol["spec"] <= 3:
+                    ck.violation("distance to the nil tree %s/%s is not delete-all/insert-all %s/%s" % (r["del_all_b"], r["ins_all_a"], del_b, ins_a), rep)
+                continue
+            if model_ba != spec_ba:
+                nviol["tie"] += 1
+                if nviol["tie"] <= 3:
+                    ck.broken_ties.append("model Ted/ZS.v gives %s, spec %s, implementation %s for d(b,a) on %s" % (model_ba, spec_ba, r["d_ba"], rep))
         if c["brute"]:
             n_brute += 1
-            if Fraction(mv[7], scale) != spec_d:
-                ck.broken_ties.append("spec delta %s differs from the brute-force minimum over mappings %s on %s" % (spec_d, Fraction(mv[7], scale), rep))
+            bi = 11 if wcase else 7
+            if Fraction(mv[bi], scale) != spec_d or (wcase and Fraction(mv[12], scale) != spec_ba):
+                ck.broken_ties.append("spec delta %s differs from the brute-force minimum over mappings %s on %s" % (spec_d, Fraction(mv[bi], scale), rep))
         # --- implementation vs the code model: the tie
         if model_d != spec_d or mv[4] != 1:
             nviol["tie"] += 1
             if nviol["tie"] <= 3:
                 ck.broken_ties.append("model Ted/ZS.v gives %s, spec %s, implementation %s on %s" % (model_d, spec_d, d, rep))
 
-    ck.samples = [{"t1": json_tree(cases[k]["a"]), "t2": json_tree(cases[k]["b"]), "cost": CONFIGS[cases[k]["ci"]][0], "impl_d": impl[k].get("d"),
+    ck.samples = [{"t1": json_tree(cases[k]["a"]), "t2": json_tree(cases[k]["b"]), "cost": cfg_name(ALLCFG[cases[k]["ci"]]), "impl_d": impl[k].get("d"),
                    "spec_units": unlimb(model[k][0]) if model[k] else None} for k in (0, len(cases) // 3, len(cases) // 2, len(cases) - 8) if k < len(cases)]
     ck.cov.update({
         "evaluations": len(cases) + nbig,
@@ -554,7 +779,11 @@ def main(tier):
         "rule": "tree pairs: exhaustive <=4 nodes/2 labels (all for default; sampled for python/weighted in quick), sampled <=5 nodes, "
                 "random trees up to %d nodes (identical, relabelled, k-edit mutations with known cost bound, independent, subtree), "
                 "path/star/comb shapes, clause-only cases at 150..500 nodes, range/identity-only cases above 500 nodes; "
-                "distinct = distinct (cost model, distance) values seen; %d cases with distance > 0" % (nmax, nontrivial),
+                "weighted family NewWeightedCostModel(ins,del,ren,base) with %d weight triples (fixed corners incl. zero/tiny/huge weights + random dyadic, "
+                "mostly ins<>del) over the default and Python base models: all ordered pairs <=3 nodes/2 labels for the first members, "
+                "size classes larger-first/smaller-first/equal in both argument orders, random trees <=24 nodes with k-edit bound, both directions decided; "
+                "distinct = distinct (cost model, distance) values seen; %d cases with distance > 0" % (nmax, len(wcfgs), nontrivial),
+        "weighted_family_members": [cfg_name(c) for c in wcfgs],
         "input_distribution": dict(kinds, above_limit=nbig, brute_force_checked=n_brute,
                                    coq_evaluated=sum(1 for m in model if m is not None)),
         "disagreements_checked": sum(nviol.values()) + cost_mism,
@@ -562,9 +791,10 @@ def main(tier):
     })
     ck.trusted += ["Coq 8.16.1 kernel, vm_compute (bounded theorems and case evaluation)",
                    "translator /verif/translator/gen_ted.go (constants of apted_cost.go, framework_patterns.go, clone_detector.go, the 500 limit)",
-                   "float64 vs exact integers: default cost model compared exactly; python/weighted within 1e-9 absolute",
+                   "float64 vs exact integers: default cost model (and weighted members over it with small dyadic weights) compared exactly; python/weighted within 1e-9 absolute",
+                   "pyscn-verif ted_w hook: NewAPTEDAnalyzer(NewWeightedCostModel(wi, wd, wr, base)), base = NewDefaultCostModel() or the Python model NewCloneDetector builds",
                    "hand-written model Ted/ZS.v of apted.go/apted_tree.go (exact path only; computeDistanceOptimized not modelled)",
-                   "hand-written model Ted/Cost.v of the cost models, compared on a 20-label alphabet with the implementation's tables",
+                   "hand-written model Ted/Cost.v of the cost models, compared on a %d-label alphabet with the implementation's tables" % len(LABELS),
                    "minimum edit cost = minimum over Tai mappings (each node edited at most once); python/weighted costs are not a metric",
                    "pyscn-verif ted hook builds TreeNode values with NewTreeNode/AddChild and uses the analyzer NewCloneDetector builds"]
     ck.finish(assumptions=["labels are ASCII strings; both trees have at most 500 nodes (exact path) except for the similarity-range and identical-tree clauses",
